@@ -143,7 +143,7 @@ def validate_trace(module, cfg, trace_path, *, timeout=300, env=None, name=None)
     res = run_tlc(module, cfg, workers=1, timeout=timeout, coverage=False, env=e, dfs=True,
                   jvm_opts=["-Xss1g", "-Xmx2g", "-XX:ParallelGCThreads=2", "-XX:TieredStopAtLevel=1"], name=name)
     info = {"distinct": res.distinct, "depth": res.depth, "rc": res.rc}
-    m = re.search(r'"TRACE-UNMATCHED", (\d+), (.*?)>>', res.out, re.S)
+    m = re.search(r'"TRACE-UNMATCHED",\s*(\d+),\s*(.*?)>>', res.out, re.S)
     if m:
         info["unmatched_index"] = int(m.group(1))
         info["unmatched_event"] = m.group(2)[:600]
